@@ -274,6 +274,29 @@ INLINED_CLOSURE_CALLS = {}
 _CLOSURE_CALLS = ('core::ops::function::FnOnce::call_once', 'core::ops::function::FnMut::call_mut', 'core::ops::function::Fn::call')
 
 
+# adaptor -> (type, variant the closure runs on, its index, is the closure's result wrapped in that variant again?)
+_ADAPTORS = {
+    'core::result::Result::<T, E>::map': ('core::result::Result', 'Ok', 0, True),
+    'core::result::Result::<T, E>::and_then': ('core::result::Result', 'Ok', 0, False),
+    'core::result::Result::<T, E>::map_err': ('core::result::Result', 'Err', 1, True),
+    'core::option::Option::<T>::map': ('core::option::Option', 'Some', 1, True),
+    'core::option::Option::<T>::and_then': ('core::option::Option', 'Some', 1, False),
+}
+
+
+_ALIAS = {}
+
+
+def _closure_body(F, bodies, d):
+    """body of the closure `d`, also when d is the name a helper's closure goes by in the caller it was spliced into"""
+    for _ in range(8):
+        cb = bodies.get(d) or F.bodies.get(d)
+        if cb is not None or d not in _ALIAS:
+            return cb
+        d = _ALIAS[d]
+    return None
+
+
 def inline_closure_calls(F, body, bodies=None, depth=0, direct=True, changed=()):
     """`f()` where f is, after the helpers were spliced in, a closure written in this very body (a new helper took it as an
     `impl FnOnce` parameter): the closure's body is spliced in at the call, its environment bound to the closure value."""
@@ -285,7 +308,18 @@ def inline_closure_calls(F, body, bodies=None, depth=0, direct=True, changed=())
     # `ord.then_with(|| ..)` whose closure hands the rest of a comparison to a new helper: the closure runs exactly when ord is Equal
     tw = [i for i, blk in enumerate(body['blocks']) if changed and blk['t'].get('k') == 'call' and (blk['t'].get('f') or {}).get('fn') == 'core::cmp::Ordering::then_with'
           and len(blk['t'].get('args') or ()) == 2 and isinstance(blk['t'].get('t'), int) and blk['t']['args'][0].get('k') in ('cp', 'mv')]
-    if not sites and not tw:
+    # `r.map(|x| ..)` / `and_then` / `map_err` of a Result or Option in a body that had helpers spliced in: the closure runs on the
+    # payload of the one variant, the other variant passes through - written out as the match it stands for
+    ad = []
+    if direct:
+        for i, blk in enumerate(body['blocks']):
+            t_ = blk['t']
+            if t_.get('k') != 'call' or len(t_.get('args') or ()) != 2 or not isinstance(t_.get('t'), int) or t_['args'][0].get('k') not in ('cp', 'mv') or (t_.get('dst') or {}).get('p'):
+                continue
+            fn_ = str((t_.get('f') or {}).get('fn') or '')
+            if fn_ in _ADAPTORS:
+                ad.append(i)
+    if not sites and not tw and not ad:
         return body
     from .core import B as _B
     W = _B(body)
@@ -303,7 +337,7 @@ def inline_closure_calls(F, body, bodies=None, depth=0, direct=True, changed=())
             continue
         agg = o[1]
         d = o[1].get('def')
-        cb = bodies.get(d) or F.bodies.get(d)
+        cb = _closure_body(F, bodies, d)
         if cb is None or d == body['path'] or len(cb['blocks']) > MAX_BLOCKS:
             continue
         a1 = t['args'][1]
@@ -322,11 +356,25 @@ def inline_closure_calls(F, body, bodies=None, depth=0, direct=True, changed=())
         if not (o and o[0] == 'agg' and isinstance(o[1], dict) and o[1].get('ak') == 'closure' and o[1].get('def') in changed):
             continue
         d = o[1]['def']
-        cb = bodies.get(d) or F.bodies.get(d)
+        cb = _closure_body(F, bodies, d)
         if cb is None or cb.get('argc', 1) != 1 or len(cb['blocks']) > MAX_BLOCKS:
             continue
         o[1]['expanded'] = True       # (marks the closure literal: its body now also stands at the place it was called from)
         todo.append((i, d, cb, 'then_with', o[1]))
+    for i in ad:
+        t = body['blocks'][i]['t']
+        try:
+            o = W.origin(t['args'][1])
+        except Exception:
+            continue
+        if not (o and o[0] == 'agg' and isinstance(o[1], dict) and o[1].get('ak') == 'closure'):
+            continue
+        d = o[1]['def']
+        cb = _closure_body(F, bodies, d)
+        if cb is None or cb.get('argc', 1) != 2 or len(cb['blocks']) > 24 or d == body['path']:
+            continue
+        o[1]['expanded'] = True
+        todo.append((i, d, cb, ('adaptor', t['f']['fn']), o[1]))
     if not todo:
         return body
     nb = dict(body)
@@ -340,9 +388,10 @@ def inline_closure_calls(F, body, bodies=None, depth=0, direct=True, changed=())
         bo = len(nb['blocks'])
         nb['locals'] = nb['locals'] + [dict(l_) for l_ in cb['locals']]
         then_with = (n_par == 'then_with')
-        if then_with:
+        adaptor = n_par[1] if isinstance(n_par, tuple) else None
+        if then_with or adaptor:
             n_par = 0
-        env = copy.deepcopy(t['args'][1 if then_with else 0])
+        env = copy.deepcopy(t['args'][1 if (then_with or adaptor) else 0])
         if env.get('k') == 'mv':
             env['k'] = 'cp'
         pre = [{'k': '=', 'pl': {'l': lo + 1, 'p': None}, 'rv': {'k': 'use', 'op': env}, 'ln': t.get('ln'), 'inl': d}]
@@ -375,7 +424,20 @@ def inline_closure_calls(F, body, bodies=None, depth=0, direct=True, changed=())
                 return [fix(v2) for v2 in x]
             return x
         ret_to, unw_to, dst = t['t'], t.get('u'), t['dst']
-        if then_with:
+        if adaptor:
+            adt_, run_var, run_vi, wrap = _ADAPTORS[adaptor]
+            # the closure's parameter is the payload of the variant it runs on
+            src = copy.deepcopy(t['args'][0]['pl'])
+            pay = dict(src)
+            pay['p'] = list(src.get('p') or []) + [{'dc': run_vi, 'n': run_var}, {'f': 0, 'n': '0'}]
+            pre.append({'k': '=', 'pl': {'l': lo + 2, 'p': None}, 'rv': {'k': 'use', 'op': {'k': 'mv', 'pl': pay}}, 'ln': t.get('ln'), 'inl': d})
+            dl = len(nb['locals'])
+            nb['locals'] = nb['locals'] + [{'ty': 'isize', 'n': None}]
+            other = len(nb['blocks']) + len(cb['blocks'])
+            # the discriminant is read before the payload is moved out
+            blk['s'] = blk['s'] + [{'k': '=', 'pl': {'l': dl, 'p': None}, 'rv': {'k': 'discr', 'pl': copy.deepcopy(src), 'ty': adt_}, 'ln': t.get('ln'), 'inl': d}] + pre
+            blk['t'] = {'k': 'switch', 'd': {'k': 'mv', 'pl': {'l': dl, 'p': None}}, 'dty': 'isize', 'cases': [[run_vi, bo]], 'else': other, 'ln': t.get('ln'), 'inl': d}
+        elif then_with:
             # switch on the ordering so far: Equal -> the closure, anything else -> that ordering
             dl = len(nb['locals'])
             nb['locals'] = nb['locals'] + [{'ty': 'isize', 'n': None}]
@@ -391,13 +453,30 @@ def inline_closure_calls(F, body, bodies=None, depth=0, direct=True, changed=())
             ss = [fix(_ren(s_, lo, bo)) for s_ in cblk['s']]
             ct = cblk['t']
             if ct['k'] == 'ret':
-                ss.append({'k': '=', 'pl': copy.deepcopy(dst), 'rv': {'k': 'use', 'op': {'k': 'mv', 'pl': {'l': lo, 'p': None}}}, 'ln': t.get('ln'), 'inl': d})
+                if adaptor and _ADAPTORS[adaptor][3]:
+                    adt_, run_var, run_vi, wrap = _ADAPTORS[adaptor]
+                    ss.append({'k': '=', 'pl': copy.deepcopy(dst), 'rv': {'k': 'agg', 'ak': 'adt', 'adt': adt_, 'var': run_var, 'vi': run_vi, 'fn': ['0'],
+                                                                       'ops': [{'k': 'mv', 'pl': {'l': lo, 'p': None}}]}, 'ln': t.get('ln'), 'inl': d})
+                else:
+                    ss.append({'k': '=', 'pl': copy.deepcopy(dst), 'rv': {'k': 'use', 'op': {'k': 'mv', 'pl': {'l': lo, 'p': None}}}, 'ln': t.get('ln'), 'inl': d})
                 nt = {'k': 'goto', 't': ret_to, 'ln': ct.get('ln'), 'inl': d}
             elif ct['k'] == 'resume':
                 nt = {'k': 'goto', 't': unw_to, 'ln': ct.get('ln')} if isinstance(unw_to, int) else dict(ct)
             else:
                 nt = fix(_ren_term(ct, lo, bo))
             nb['blocks'].append({'s': ss, 't': nt})
+        if adaptor:
+            # the other variant goes through with its payload (written as the literal it is, so that what follows knows the variant)
+            adt_, run_var, run_vi, wrap = _ADAPTORS[adaptor]
+            o_var, o_vi = {'Ok': ('Err', 1), 'Err': ('Ok', 0), 'Some': ('None', 0)}[run_var]
+            if o_var == 'None':
+                orv = {'k': 'agg', 'ak': 'adt', 'adt': adt_, 'var': 'None', 'vi': 0, 'fn': [], 'ops': []}
+            else:
+                src2 = copy.deepcopy(t['args'][0]['pl'])
+                src2['p'] = list(src2.get('p') or []) + [{'dc': o_vi, 'n': o_var}, {'f': 0, 'n': '0'}]
+                orv = {'k': 'agg', 'ak': 'adt', 'adt': adt_, 'var': o_var, 'vi': o_vi, 'fn': ['0'], 'ops': [{'k': 'mv', 'pl': src2}]}
+            nb['blocks'].append({'s': [{'k': '=', 'pl': copy.deepcopy(dst), 'rv': orv, 'ln': t.get('ln'), 'inl': d}],
+                                 't': {'k': 'goto', 't': ret_to, 'ln': t.get('ln'), 'inl': d}})
         if then_with:
             nb['blocks'].append({'s': [{'k': '=', 'pl': copy.deepcopy(dst), 'rv': {'k': 'use', 'op': {'k': 'cp', 'pl': copy.deepcopy(t['args'][0]['pl'])}}, 'ln': t.get('ln'), 'inl': d}],
                                  't': {'k': 'goto', 't': ret_to, 'ln': t.get('ln'), 'inl': d}})
@@ -1044,6 +1123,8 @@ def normalise(F):
             nb_ = inline_awaits(F, nb_, coros)
         out[p] = nb_
     changed = {p for p in out if out[p] is not F.bodies.get(p)}
+    _ALIAS.clear()
+    _ALIAS.update(alias)
     for p in list(out):
         b = F.bodies[p]
         if b.get('crate') not in WS:
@@ -1057,7 +1138,10 @@ def normalise(F):
             nb_ = split_webs(nb_)
         out[p] = nb_
     # closures of inlined helpers live on under the caller's name too
-    for a, orig in alias.items():
+    for a, orig in list(alias.items()):
+        for _ in range(8):          # a closure of a helper of a helper: the alias of an alias
+            if orig in alias and orig not in F.bodies:
+                orig = alias[orig]
         if orig in F.bodies and a not in out:
             c = dict(out.get(orig) or F.bodies[orig])
             c['path'] = a
